@@ -270,13 +270,16 @@ WebSocketMsg WebSocket::receive()
 		byte b0, mlen;
 		DEBUG_LOG("receive\n");
 		if (closed()) {
-			return msg.fix();
+			return WebSocketMsg().fix(); // a message whose final frame has not arrived is not delivered
 		}
 		DEBUG_LOG("avail %i\n", _socket.available());
 		_socket >> b0 >> mlen;
 		DEBUG_LOG("%i %i\n", b0, mlen);
-		if (closed()) {
-			return msg.fix();
+		if (_socket.error()) // the stream ended before the two header bytes (a frame may end exactly here: not closed())
+		{
+			_closed = true;
+			_socket.close();
+			return WebSocketMsg().fix();
 		}
 		bool fin = !!(b0 & 0x80);
 		int opcode = b0 & 0x0f;
@@ -293,7 +296,7 @@ WebSocketMsg WebSocket::receive()
 			{
 				_closed = true;
 				_socket.close();
-				return msg.fix();
+				return WebSocketMsg().fix();
 			}
 			len = (int)len64;
 		}
@@ -306,14 +309,14 @@ WebSocketMsg WebSocket::receive()
 		{
 			_closed = true;
 			_socket.close();
-			return msg.fix();
+			return WebSocketMsg().fix();
 		}
 
 		if (opcode < 3 && len > 0x7ffffff0 - msg.length()) // the reassembled message would not fit an array: protocol error
 		{
 			_closed = true;
 			_socket.close();
-			return msg.fix();
+			return WebSocketMsg().fix();
 		}
 
 		// len is what the peer announced: the buffer grows as the payload actually arrives (at most doubling)
@@ -326,7 +329,7 @@ WebSocketMsg WebSocket::receive()
 			{
 				_closed = true;
 				_socket.close();
-				return msg.fix();
+				return WebSocketMsg().fix();
 			}
 			got += chunk;
 		}
